@@ -39,10 +39,20 @@ Ltac es_nonzero_in H a f :=
   | context [Req_EM_T 0 (es a f)] => destruct (Req_EM_T 0 (es a f)) as [?E0|_] in H; [exfalso; lra|]
   end.
 
-Lemma g_closed a f GM w lat h : dom a f GM ->
+Lemma sin2d_bounds lat : 0 <= sin2d lat <= 1.
+Proof. apply sin_sqr_bounds. Qed.
+
+Lemma gE_gP_pos a f GM w : dom a f GM -> mof a f GM w < 1/20 -> 0 < gE a f GM w /\ 0 < gP a f GM w.
+Proof.
+  intros D Hm. destruct (ge_gp_positive a f GM w D Hm) as (ge & gp & H1 & H2 & P1 & P2).
+  rewrite (ge_closed a f GM w D) in H1. rewrite (gp_closed a f GM w D) in H2.
+  injection H1 as H1. injection H2 as H2. unfold gE, gP. rewrite H1, H2. split; assumption.
+Qed.
+
+Lemma g_closed a f GM w lat h : dom a f GM -> mof a f GM w < 1/20 ->
   C16_g_R a f GM w lat h = Val [gamma a f GM w lat h].
 Proof.
-  intros D. pose proof (es_in a f GM D) as Hx.
+  intros D Hm. pose proof (es_in a f GM D) as Hx. destruct (gE_gP_pos a f GM w D Hm) as [P1 P2].
   pose proof (ge_closed a f GM w D) as HGE. pose proof (gp_closed a f GM w D) as HGP.
   destruct D as (Ha & Hf & HG).
   unfold C16_ge_R in HGE; cbv zeta in HGE. name_es_in HGE a f.
@@ -51,18 +61,17 @@ Proof.
   apply Val1_inv in HGE. apply Val1_inv in HGP.
   unfold C16_g_R; cbv zeta. name_es a f.
   es_nonzero a f.
-  rewrite HGE, HGP. fold (gE a f GM w) (gP a f GM w). fold (sin2d lat).
-  unfold gamma, somig.
-  replace (1 - (2*f - f^2) * sin2d lat) with (1 - (2*f - f*f) * sin2d lat) by ring.
-  destr_dec.
-  - subst h. rewrite hfac_0 by lra. val_eq. ring.
-  - val_eq. unfold hfac, mof. apply Rmult_eq_compat_l. field. lra.
+  rewrite HGE, HGP. fold (gE a f GM w) (gP a f GM w) in *. fold (sin2d lat).
+  match goal with |- context [sqrt ?e] => replace e with (1 - (2*f - f*f) * sin2d lat) by ring end.
+  assert (HQ : 0 < sqrt (1 - (2*f - f*f) * sin2d lat)) by (apply sqrt_lt_R0; pose proof (sin2d_bounds lat); nra).
+  unfold gamma, somig, hfac, mof.
+  destr_dec; [subst h|]; val_eq; field; repeat split; lra.
 Qed.
 
-Lemma g0_closed a f GM w lat : dom a f GM ->
+Lemma g0_closed a f GM w lat : dom a f GM -> mof a f GM w < 1/20 ->
   C16_g0_R a f GM w lat = Val [gamma a f GM w lat 0].
 Proof.
-  intros D. pose proof (es_in a f GM D) as Hx.
+  intros D Hm. pose proof (es_in a f GM D) as Hx. destruct (gE_gP_pos a f GM w D Hm) as [P1 P2].
   pose proof (ge_closed a f GM w D) as HGE. pose proof (gp_closed a f GM w D) as HGP.
   destruct D as (Ha & Hf & HG).
   unfold C16_ge_R in HGE; cbv zeta in HGE. name_es_in HGE a f.
@@ -71,15 +80,14 @@ Proof.
   apply Val1_inv in HGE. apply Val1_inv in HGP.
   unfold C16_g0_R; cbv zeta. name_es a f.
   es_nonzero a f.
-  rewrite HGE, HGP. fold (gE a f GM w) (gP a f GM w). fold (sin2d lat).
-  unfold gamma, somig. rewrite hfac_0 by lra.
-  replace (1 - (2*f - f^2) * sin2d lat) with (1 - (2*f - f*f) * sin2d lat) by ring.
-  val_eq. ring.
+  rewrite HGE, HGP. fold (gE a f GM w) (gP a f GM w) in *. fold (sin2d lat).
+  match goal with |- context [sqrt ?e] => replace e with (1 - (2*f - f*f) * sin2d lat) by ring end.
+  assert (HQ : 0 < sqrt (1 - (2*f - f*f) * sin2d lat)) by (apply sqrt_lt_R0; pose proof (sin2d_bounds lat); nra).
+  unfold gamma, somig, hfac, mof.
+  val_eq; field; repeat split; lra.
 Qed.
 
 (* ---- facts about the closed form -------------------------------------------------------------- *)
-Lemma sin2d_bounds lat : 0 <= sin2d lat <= 1.
-Proof. apply sin_sqr_bounds. Qed.
 Lemma sin2d_0 : sin2d 0 = 0.
 Proof. unfold sin2d. rewrite sin_deg_0. ring. Qed.
 Lemma sin2d_90 : sin2d 90 = 1.
@@ -89,12 +97,6 @@ Proof. unfold sin2d. rewrite sin_deg_m90. ring. Qed.
 Lemma sin2d_neg lat : sin2d (- lat) = sin2d lat.
 Proof. unfold sin2d. rewrite <- Ropp_mult_distr_l, sin_neg. ring. Qed.
 
-Lemma gE_gP_pos a f GM w : dom a f GM -> mof a f GM w < 1/20 -> 0 < gE a f GM w /\ 0 < gP a f GM w.
-Proof.
-  intros D Hm. destruct (ge_gp_positive a f GM w D Hm) as (ge & gp & H1 & H2 & P1 & P2).
-  rewrite (ge_closed a f GM w D) in H1. rewrite (gp_closed a f GM w D) in H2.
-  injection H1 as H1. injection H2 as H2. unfold gE, gP. rewrite H1, H2. split; assumption.
-Qed.
 
 Lemma somig_equator a b ge gp e2 : somig a b ge gp e2 0 = ge.
 Proof. unfold somig. rewrite !Rmult_0_r, Rminus_0_r, Rplus_0_r, sqrt_1. field. Qed.
@@ -136,18 +138,4 @@ Proof.
   intros D Hm H1 H12 H2. unfold gamma. apply Rmult_lt_compat_l; [apply gamma_surface_pos; assumption|].
   pose proof (mof_nonneg a f GM w D). destruct D as (Ha & Hf & HG).
   apply hfac_decreasing; try lra. apply sin2d_bounds.
-Qed.
-
-(* symmetry in latitude: for ALL inputs (every branch, also the raising ones) *)
-Lemma g_symmetric a f GM w lat h : C16_g_R a f GM w (- lat) h = C16_g_R a f GM w lat h.
-Proof.
-  unfold C16_g_R; cbv zeta.
-  assert (E : sin (- lat * (1/180 * PI)) ^ 2 = sin (lat * (1/180 * PI)) ^ 2) by (rewrite <- Ropp_mult_distr_l, sin_neg; ring).
-  rewrite !E. reflexivity.
-Qed.
-Lemma g0_symmetric a f GM w lat : C16_g0_R a f GM w (- lat) = C16_g0_R a f GM w lat.
-Proof.
-  unfold C16_g0_R; cbv zeta.
-  assert (E : sin (- lat * (1/180 * PI)) ^ 2 = sin (lat * (1/180 * PI)) ^ 2) by (rewrite <- Ropp_mult_distr_l, sin_neg; ring).
-  rewrite !E. reflexivity.
 Qed.
